@@ -70,6 +70,11 @@ type opIn struct {
 	// transfer
 	To int `json:"to"`
 
+	// create_at: Edge = "upper" | "lower", Wd = width in tick spacings, Off = offset in tick spacings from the current tick
+	Edge string `json:"edge"`
+	Wd   int64  `json:"wd"`
+	Off  int64  `json:"off"`
+
 	// swaps: Zfo = token0 in.  swap_in: Amt in, Lim = min out.  swap_out: Amt out, Lim = max in.
 	// swap_to_tick: exact-in of (ComputeMaxInAmtGivenMaxTicksCrossed(N) + Delta)
 	Zfo   bool   `json:"zfo"`
@@ -410,9 +415,11 @@ func (w *world) dump(o *obsStep) {
 	for _, id := range w.allPositionIds() {
 		p, _ := k.GetPosition(ctx, id)
 		c0, c1 := "", ""
-		if cr, err := k.GetClaimableSpreadRewards(ctx, id); err == nil {
-			c0, c1 = cr.AmountOf(w.d0).String(), cr.AmountOf(w.d1).String()
-		}
+		tryQ(func() { // a panic inside a query (e.g. DecCoins.Sub "negative coin amount") is a failed query, as in the model
+			if cr, err := k.GetClaimableSpreadRewards(ctx, id); err == nil {
+				c0, c1 = cr.AmountOf(w.d0).String(), cr.AmountOf(w.d1).String()
+			}
+		})
 		o.Pos = append(o.Pos, []string{fmt.Sprint(p.PositionId), fmt.Sprint(w.accIdx(p.Address)), fmt.Sprint(p.LowerTick), fmt.Sprint(p.UpperTick),
 			rawDec(p.Liquidity), fmt.Sprint(p.JoinTime.Unix()), c0, c1})
 		rr := recRow(spreadAcc, cltypes.KeySpreadRewardPositionAccumulator(id))
@@ -421,9 +428,11 @@ func (w *world) dump(o *obsStep) {
 		}
 		o.PosRec = append(o.PosRec, rr)
 		ci := []string{"", "", "", ""}
-		if col, forf, err := k.GetClaimableIncentives(ctx, id); err == nil {
-			ci = []string{col.AmountOf(w.d0).String(), col.AmountOf(w.d1).String(), forf.AmountOf(w.d0).String(), forf.AmountOf(w.d1).String()}
-		}
+		tryQ(func() {
+			if col, forf, err := k.GetClaimableIncentives(ctx, id); err == nil {
+				ci = []string{col.AmountOf(w.d0).String(), col.AmountOf(w.d1).String(), forf.AmountOf(w.d0).String(), forf.AmountOf(w.d1).String()}
+			}
+		})
 		o.PosInc = append(o.PosInc, ci)
 	}
 	o.UpAccum = [][]string{}
@@ -580,6 +589,31 @@ func (w *world) step(c caseIn, op opIn) obsStep {
 			}
 			return err
 		})
+	case "create_at":
+		// boundary coincidence: a position whose upper (Edge = "upper") or lower (Edge = "lower") tick is the pool's CURRENT tick
+		// rounded down to the tick spacing (+ Off spacings), Wd spacings wide.  Resolved to a plain create.
+		if pool, err := k.GetConcentratedPoolById(w.h.Ctx, w.poolId); err == nil {
+			sp := int64(pool.GetTickSpacing())
+			ct := pool.GetCurrentTick()
+			m := ct - ((ct%sp)+sp)%sp + op.Off*sp
+			wd := op.Wd
+			if wd <= 0 {
+				wd = 1
+			}
+			if op.Edge == "upper" {
+				op.Lo, op.Hi = m-wd*sp, m
+			} else {
+				op.Lo, op.Hi = m, m+wd*sp
+			}
+			if op.Lo < cltypes.MinInitializedTick {
+				op.Lo = cltypes.MinInitializedTick - ((cltypes.MinInitializedTick%sp)+sp)%sp + sp
+			}
+			if op.Hi > cltypes.MaxTick {
+				op.Hi = cltypes.MaxTick - ((cltypes.MaxTick%sp)+sp)%sp
+			}
+		}
+		op.K = "create"
+		return w.step(c, op)
 	case "balance":
 		// make the NET liquidity of a shared boundary tick exactly zero while its gross stays positive: find a tick T that is the
 		// upper boundary of some positions and the lower boundary of others, and withdraw |net(T)| from one position on the heavier
@@ -914,6 +948,12 @@ func (w *world) exitAll(order int) exitT {
 		e.Acts = append(e.Acts, []string{"panic", "0", "2", perr.Error()})
 	}
 	return e
+}
+
+// tryQ runs a read-only query and turns a panic into "query failed"
+func tryQ(f func()) {
+	defer func() { _ = recover() }()
+	f()
 }
 
 func runCase(t *testing.T, c caseIn) (out obsOut) {
